@@ -117,7 +117,8 @@ func sideSymmetryRule(c *core.Check, r *core.Rule, pkg string, files map[string]
 		}
 		r.Cond(sp.Consistent, key, p.Pos(sp.A.Pos()), "mirrored by: "+sp.TextB, "its sibling mirrors some side names and not others: "+sp.TextB)
 	}
-	if len(pairs) < floor {
+	// generic lints keep a third of slack: their instances are incidental code, not hand-confirmed sites
+	if len(pairs) < floor*2/3 {
 		r.Unknown("sibling pairs in "+pkg, "-", fmt.Sprintf("%d mirrored assignment pairs found, %d on the tree this rule was written for", len(pairs), floor))
 	}
 }
@@ -161,7 +162,7 @@ func sideSumRule(c *core.Check, r *core.Rule, pkg string, files map[string]bool,
 		}
 		r.Cond(ss.Consistent, key, p.Pos(ss.Expr.Pos()), ss.Kinds, "the sum mixes the sides of different box edges ("+ss.Kinds+"): margin, padding and border are expected with the same sides in one sum")
 	}
-	if len(sums) < floor {
+	if len(sums) < floor*2/3 {
 		r.Unknown("box-edge sums in "+pkg, "-", fmt.Sprintf("%d sums found, %d on the tree this rule was written for", len(sums), floor))
 	}
 }
@@ -183,7 +184,7 @@ func argNameRule(c *core.Check, r *core.Rule, pkg string, files map[string]bool,
 		}
 		r.Cond(!ap.Crossed, key, p.Pos(ap.Call.Pos()), "each argument carries the name of the parameter it is passed for", "the two arguments carry each other's parameter names: they are passed in the wrong order")
 	}
-	if len(pairs) < floor {
+	if len(pairs) < floor*2/3 {
 		r.Unknown("named argument pairs in "+pkg, "-", fmt.Sprintf("%d pairs found, %d on the tree this rule was written for", len(pairs), floor))
 	}
 }
